@@ -25,7 +25,11 @@ def segment_dfts(x, starts, L, w, omega, order):
     idx = starts[:, None] + n[None, :]
     ft = np.longdouble if idx.size <= 300000 else np.float64   # extended precision where affordable
     seg = x[idx].astype(ft)
-    if order >= 0:
+    if order == 0:
+        # mean removal evaluated directly in the working precision (the float64 QR basis below carries a relative
+        # error of 1e-16 of the *raw* level, which matters for a pedestal far above the signal)
+        seg = seg - seg.mean(axis=1, keepdims=True)
+    elif order >= 0:
         Q = detrend_matrix(L, order).astype(ft)
         seg = seg - (seg @ Q) @ Q.T
     ph = (ft(omega) * n.astype(ft))
